@@ -471,14 +471,14 @@ PATH_TRANSPARENT = ("std::path::Path::new", "std::path::Path::join", "std::path:
                     "std::path::Path::parent", "alloc::borrow::ToOwned::to_owned")
 
 
-def module_identity(F, rep):
-    """A module is identified by the path its import spells (compile-time registry, run-time `<path>#__module__` key).  The grammar of
-    import_path admits path features that do not name anything (`.`, `..`): two spellings of one file are one module only if the builder of
-    the key neutralises every such feature the grammar can actually produce."""
+def path_features(F):
+    """(live, shadowed): the literal alternatives of the grammar rule path_feature (`.`, `..`) an import path can / cannot actually contain.
+    PEG ordered choice: an alternative is dead when an earlier literal alternative is a prefix of it."""
     G = F.grammar()
     rules_ = {r["name"]: r for r in G["rules"]}
     if "import_path" not in rules_ or "path_feature" not in rules_:
         raise AnchorMissing("grammar rules import_path / path_feature")
+
     def alts(e):
         if e["k"] == "choice":
             return alts(e["a"]) + alts(e["b"])
@@ -496,9 +496,16 @@ def module_identity(F, rep):
     for name, lit in feats:
         if lit is None:
             continue
-        # PEG ordered choice: an alternative is dead when an earlier literal alternative is a prefix of it
         (shadowed if any(lit.startswith(x) for x in seen_lits) else live).append(lit)
         seen_lits.append(lit)
+    return live, shadowed
+
+
+def module_identity(F, rep):
+    """A module is identified by the path its import spells (compile-time registry, run-time `<path>#__module__` key).  The grammar of
+    import_path admits path features that do not name anything (`.`, `..`): two spellings of one file are one module only if the builder of
+    the key neutralises every such feature the grammar can actually produce."""
+    live, shadowed = path_features(F)
     rep.floor("C11.module-identity non-naming path features in the grammar", len(live) + len(shadowed), 2)
     want = {".": "CurDir", "..": "ParentDir"}
     pf = need(F, "compiler::ast::import::Import::path_from_parts")
